@@ -573,7 +573,12 @@ class SpectralDensity(DFunction, UnitsManaged):
         nonzero = (freq != 0.0)
         integr = self.data[nonzero]/freq[nonzero]
         uvspl = interp.UnivariateSpline(freq[nonzero], integr, s=0)
-        integ = uvspl.integral(0.0, self.axis.max)/numpy.pi
+        # UnivariateSpline.integral() takes the spline as zero outside of its
+        # knots; when w = 0 is the first point of the axis, the interval
+        # between zero and the first non-zero point would be lost
+        anti = uvspl.antiderivative()
+        lower = max(0.0, self.axis.min)
+        integ = float(anti(self.axis.max) - anti(lower))/numpy.pi
 
         return integ
 
